@@ -68,6 +68,7 @@ def run(ck: Checker, prog: Program, tier: str):
     from . import c20
     with ck.borrow(c08, "C06.R6+"):
         ck.guard(c08._r1, ck, prog)
+        ck.guard(c08._members_private, ck, prog)      # the decisions written are those of this object: members are private copies
     with ck.borrow(c20, "C06.R6+"):
         ck.guard(c20._read_only, ck, prog)
     with ck.borrow(c05, "C06.R4+"):
